@@ -460,7 +460,10 @@ def random_super_input(rng, no, ns, nf, ordered, rootsyn_p=0.0, consistent_p=0.8
         from engine.harness import totuple
         orders = LB.root_orders(OTree(totuple(d["ot"]), "o"), d["leafsyn"])
         if orders:
-            d["rootsyn"] = rng.choice(orders)
+            d["rootsyn"] = list(rng.choice(orders))
+            if rng.random() < 0.4:
+                # the prescribed root is a common SUPERsequence of the leaves: it may hold a family that no leaf carries
+                d["rootsyn"].insert(rng.randrange(len(d["rootsyn"]) + 1), "x")
     return d
 
 
